@@ -42,7 +42,9 @@ VARIABLES
     undo,       \* [height -> set of utxo entries spent by the block connected at that height] (undo/<height> files)
     nDeliv,     \* number of Deliver steps so far
     balOn,      \* 0: the balance index is off; k > 0: it is on with dust limit BalLimit[k] (AllBalances.MinValue)
-    flushed,    \* blocks already written to the block files by Chain.Idle (matters for how a branch is deleted)
+    flushed,    \* blocks written to the block files by Chain.Idle.  The block store keeps its record of such a block
+                \* until the next restart even when the branch is deleted (it is only flagged invalid on disk: kept here as -b),
+                \* so a node that saw a flushed block fail is not in the same state as one that never saw it
     last        \* outcome of the last step (observation): [accepted, refusedLater, viol]
 
 BalLimit == <<100000, 0>>     \* satoshi; 0: every output is indexed, zero-value ones included
@@ -243,7 +245,8 @@ Deliver(b) ==
                /\ utxo' = st1.utxo /\ undo' = st1.undo
                /\ last' = [accepted |-> (st1.tip = b) \/ (b \in st1.known /\ Work(b) <= Work(tip)),
                            later |-> FALSE, viol |-> st1.fviol]   \* rules broken by the blocks a failed reorganisation ran into
-    /\ flushed' = flushed \cap known'
+    /\ flushed' = {x \in flushed : x < 0 \/ x \in known'} \cup {-x : x \in {y \in flushed : y > 0 /\ y \notin known'}}
+       \* (-b: block b was flushed and then deleted with its branch: the store still has its record, flagged invalid)
 
 \* client/wallet: LoadBalancesFromUtxo / Disable
 \* the index is rebuilt from the populated set under whichever limit the configuration holds at that moment
@@ -252,7 +255,7 @@ BalDisable == /\ AllowBal /\ balOn # 0 /\ balOn' = 0 /\ UNCHANGED <<known, kids,
 
 \* Chain.Idle(): the queued blocks reach the block files (and a snapshot save may start: see ChainStore / UtxoSave).
 \* For the ledger this is a no-op - which is the point: deliveries interleaved with Idle must behave the same.
-Idle == /\ AllowIdle /\ flushed # known /\ flushed' = known /\ UNCHANGED <<known, kids, tip, utxo, undo, nDeliv, balOn, last>>
+Idle == /\ AllowIdle /\ ~(known \subseteq flushed) /\ flushed' = flushed \cup known /\ UNCHANGED <<known, kids, tip, utxo, undo, nDeliv, balOn, last>>
 
 Next == (\E b \in Blocks : Deliver(b)) \/ BalEnable \/ BalDisable \/ Idle
 Spec == Init /\ [][Next]_vars
